@@ -718,15 +718,14 @@ func orderLeak(start *ssa.Phi) string {
 		return nil
 	}
 	search := bodyOf(start.Block())
+	canon := core.NewCanon(nil)
+	reCmp01 := regexp.MustCompile(` (<=|==) (0|1)$`)
 	cmp01 := func(b *ssa.BinOp, v ssa.Value) bool {
 		switch b.Op.String() {
 		case "<", "<=", ">", ">=", "==", "!=":
-			other := b.Y
-			if other == v {
-				other = b.X
-			}
-			k, ok := core.ConstInt(other)
-			return ok && (k == 0 || k == 1)
+			// in normal form (x < 2 is x <= 1) the value is compared with the constant 0 or 1
+			atom, _ := canon.CondAtom(b)
+			return reCmp01.MatchString(atom)
 		}
 		return false
 	}
